@@ -515,4 +515,207 @@ theorem pathSide_plane (d : ℕ) (c : ℝ × ℝ) (f g : ℕ) (incl : Bool) (nse
   unfold sidePt rawVtx
   congr 1 <;> ring_nf
 
+theorem sidePt_zero (c : ℝ × ℝ) (o : ℝ) (f g nseg : ℕ) : sidePt c o f g nseg 0 = rawVtx c o f := by
+  unfold sidePt; simp
+
+theorem sidePt_last (c : ℝ × ℝ) (o : ℝ) (f g nseg : ℕ) (h : 0 < nseg) : sidePt c o f g nseg nseg = rawVtx c o g := by
+  have : (nseg : ℝ) ≠ 0 := by exact_mod_cast (Nat.pos_iff_ne_zero.mp h)
+  unfold sidePt; rw [div_self this]; ext <;> simp
+
+/-- the points are on the segment between the two (raw) vertices: parameter `t/nseg ∈ [0, 1]` -/
+theorem sidePt_on_segment (c : ℝ × ℝ) (o : ℝ) (f g nseg t : ℕ) (ht : t ≤ nseg) :
+    ∃ lam : ℝ, 0 ≤ lam ∧ lam ≤ 1 ∧
+      sidePt c o f g nseg t = ((1 - lam) * (rawVtx c o f).1 + lam * (rawVtx c o g).1,
+                               (1 - lam) * (rawVtx c o f).2 + lam * (rawVtx c o g).2) := by
+  obtain ⟨h0, h1⟩ := lam_range nseg t ht
+  refine ⟨(t : ℝ) / nseg, h0, h1, ?_⟩
+  unfold sidePt; ext <;> simp only <;> ring
+
+theorem sidePt_rel (c : ℝ × ℝ) (o : ℝ) (f g nseg t : ℕ) :
+    (sidePt c o f g nseg t).1 - c.1 = (1 - (t : ℝ) / nseg) * offWe f o + (t : ℝ) / nseg * offWe g o ∧
+    (sidePt c o f g nseg t).2 - c.2 = (1 - (t : ℝ) / nseg) * offSn f o + (t : ℝ) / nseg * offSn g o := by
+  unfold sidePt rawVtx; constructor <;> simp only <;> ring
+
+theorem off_l1 (k : ℕ) (o : ℝ) (ho : 0 ≤ o) : |offWe k o| + |offSn k o| ≤ o := by
+  unfold offWe offSn
+  split_ifs <;> simp [abs_of_nonneg ho] <;> omega
+
+/-- every point of a path lies in the closed diamond of centre `c` and half-diagonal `o`, whatever the two directions -/
+theorem sidePt_in_diamond (c : ℝ × ℝ) (o : ℝ) (ho : 0 ≤ o) (f g nseg t : ℕ) (ht : t ≤ nseg) :
+    InDiamond c.1 c.2 o (sidePt c o f g nseg t).1 (sidePt c o f g nseg t).2 := by
+  obtain ⟨h0, h1⟩ := lam_range nseg t ht
+  obtain ⟨e1, e2⟩ := sidePt_rel c o f g nseg t
+  unfold InDiamond
+  rw [e1, e2]
+  set lam := (t : ℝ) / nseg
+  have hf := off_l1 f o ho
+  have hg := off_l1 g o ho
+  have a1 := abs_add_le ((1 - lam) * offWe f o) (lam * offWe g o)
+  have a2 := abs_add_le ((1 - lam) * offSn f o) (lam * offSn g o)
+  rw [abs_mul, abs_mul, abs_of_nonneg (sub_nonneg.mpr h1), abs_of_nonneg h0] at a1 a2
+  nlinarith [mul_le_mul_of_nonneg_left hf (sub_nonneg.mpr h1), mul_le_mul_of_nonneg_left hg h0]
+
+/-- **`path_points_on_border`**: when the two directions are adjacent cardinal points, every point of the path lies on
+    the border of the diamond of centre `c` and half-diagonal `o` -/
+theorem sidePt_on_border (c : ℝ × ℝ) (o : ℝ) (ho : 0 ≤ o) (f g nseg t : ℕ) (ht : t ≤ nseg) (hf : f < 4) (hg : g < 4)
+    (hadj : (f + g) % 2 = 1) : OnDiamond c.1 c.2 o (sidePt c o f g nseg t).1 (sidePt c o f g nseg t).2 := by
+  obtain ⟨h0, h1⟩ := lam_range nseg t ht
+  obtain ⟨e1, e2⟩ := sidePt_rel c o f g nseg t
+  unfold OnDiamond
+  rw [e1, e2]
+  set lam := (t : ℝ) / nseg
+  have h1' : 0 ≤ 1 - lam := sub_nonneg.mpr h1
+  have hno : |-o| = o := by rw [abs_neg, abs_of_nonneg ho]
+  have hpo : |o| = o := abs_of_nonneg ho
+  have hcases : (f = 0 ∨ f = 2) ∧ (g = 1 ∨ g = 3) ∨ (f = 1 ∨ f = 3) ∧ (g = 0 ∨ g = 2) := by omega
+  rcases hcases with ⟨hf | hf, hg | hg⟩ | ⟨hf | hf, hg | hg⟩ <;> subst hf <;> subst hg <;>
+    simp [offWe, offSn, abs_mul, abs_of_nonneg h0, abs_of_nonneg h1', hpo] <;> ring
+
+/-- the list of sphere points of a side path: un-projections of `sidePt`, abscissa reduced modulo 8 -/
+noncomputable def sideList (d : ℕ) (c : ℝ × ℝ) (f g npts nseg : ℕ) : List (ℝ × ℝ) :=
+  (List.range npts).map fun t =>
+    unprojT (norm8 (sidePt c (1 / 2 ^ d) f g nseg t).1) (sidePt c (1 / 2 ^ d) f g nseg t).2
+
+theorem pathSide_some (d : ℕ) (c : ℝ × ℝ) (f g : ℕ) (incl : Bool) (nseg : ℕ)
+    (hc1 : -2 + 1 / 2 ^ d ≤ c.2) (hc2 : c.2 ≤ 2 - 1 / 2 ^ d) :
+    pathSideInternal (α := ℝ) d c f g incl nseg = some (sideList d c f g (if incl then nseg + 1 else nseg) nseg) := by
+  have ho : 0 < 1 / (2 : ℝ) ^ d := by positivity
+  rw [pathSide_plane]
+  apply mapM_some
+  intro t ht
+  have ht' : t ≤ nseg := by
+    have := List.mem_range.mp ht
+    cases incl <;> simp at this <;> omega
+  have hin := sidePt_in_diamond c (1 / 2 ^ d) ho.le f g nseg t ht'
+  unfold InDiamond at hin
+  have hy : |(sidePt c (1 / 2 ^ d) f g nseg t).2 - c.2| ≤ 1 / 2 ^ d := by
+    have := abs_nonneg ((sidePt c (1 / 2 ^ d) f g nseg t).1 - c.1)
+    linarith
+  obtain ⟨y1, y2⟩ := abs_le.mp hy
+  exact unproj_eq _ _ (by linarith) (by linarith)
+
+/-- `path_along_cell_side` for a valid cell: all points succeed; they are the un-projections of the points `sidePt`
+    around the centre of the cell (abscissa reduced modulo 8), which start at vertex `f` (`sidePt_zero`), end at
+    vertex `g` when it is included (`sidePt_last`), all lie on the segment between them (`sidePt_on_segment`), and on
+    the border of the cell when the two vertices are adjacent (`sidePt_on_border`). -/
+theorem path_side_plane (cfg : Cfg) (d hash b i j f g : ℕ) (incl : Bool) (nseg : ℕ) (hh : hash < Layer.nHash d)
+    (hdec : Layer.decodeHash cfg d hash = some ⟨b, i, j⟩) (hb : b < 12) (hi : i < 2 ^ d) (hj : j < 2 ^ d) :
+    pathAlongCellSide (α := ℝ) cfg d hash f g incl nseg =
+      some (sideList d (norm8 (cellCx d b i j), cellCy d b i j) f g (if incl then nseg + 1 else nseg) nseg) := by
+  obtain ⟨c1, c2, c3, c4, c5⟩ := center_ranges d b i j hb hi hj
+  unfold pathAlongCellSide
+  rw [center_eq cfg d hash b i j hh hdec hb, Option.bind_some]
+  exact pathSide_some d _ f g incl nseg c4 c5
+
+/-- end points of a side path are the vertices returned by `vertex` (same plane points given to `unproj`) -/
+theorem path_side_endpoints (cfg : Cfg) (d hash b i j f g : ℕ) (nseg : ℕ) (hh : hash < Layer.nHash d)
+    (hdec : Layer.decodeHash cfg d hash = some ⟨b, i, j⟩) (hb : b < 12) (hi : i < 2 ^ d) (hj : j < 2 ^ d)
+    (hf : f < 4) (hg : g < 4) (hn : 0 < nseg) :
+    ∃ l, pathAlongCellSide (α := ℝ) cfg d hash f g true nseg = some l ∧ l.length = nseg + 1 ∧
+      l[0]? = vertex (α := ℝ) cfg d hash f ∧ l[nseg]? = vertex (α := ℝ) cfg d hash g := by
+  refine ⟨_, path_side_plane cfg d hash b i j f g true nseg hh hdec hb hi hj, ?_, ?_, ?_⟩
+  · simp [sideList]
+  · rw [vertex_plane cfg d hash b i j f hh hdec hb hi hj hf, ← rawVtx_norm d b i j f hb hi hj hf]
+    simp [sideList, sidePt_zero]
+  · rw [vertex_plane cfg d hash b i j g hh hdec hb hi hj hg, ← rawVtx_norm d b i j g hb hi hj hg]
+    simp [sideList, sidePt_last _ _ _ _ _ hn]
+
+/-- **`path_along_cell_edge`** for a valid cell: the concatenation of the four side paths (end vertex excluded)
+    through the cycle of vertices starting at `start`, clockwise or counter-clockwise -/
+theorem path_edge_plane (cfg : Cfg) (d hash b i j start : ℕ) (cw : Bool) (nseg : ℕ) (hh : hash < Layer.nHash d)
+    (hdec : Layer.decodeHash cfg d hash = some ⟨b, i, j⟩) (hb : b < 12) (hi : i < 2 ^ d) (hj : j < 2 ^ d) :
+    let nx := if cw then nextClockwise else nextCounterClockwise
+    let c : ℝ × ℝ := (norm8 (cellCx d b i j), cellCy d b i j)
+    pathAlongCellEdge (α := ℝ) cfg d hash start cw nseg =
+      some (sideList d c start (nx start) nseg nseg ++ sideList d c (nx start) (nx (nx start)) nseg nseg ++
+            sideList d c (nx (nx start)) (nx (nx (nx start))) nseg nseg ++
+            sideList d c (nx (nx (nx start))) start nseg nseg) := by
+  obtain ⟨c1, c2, c3, c4, c5⟩ := center_ranges d b i j hb hi hj
+  have hs := fun f g => pathSide_some d (norm8 (cellCx d b i j), cellCy d b i j) f g false nseg c4 c5
+  simp only [Bool.false_eq_true, if_false] at hs
+  intro nx c
+  unfold pathAlongCellEdge
+  rw [center_eq cfg d hash b i j hh hdec hb, Option.bind_some]
+  simp only [hs]
+  rfl
+
+/-- plane point number `t` of the grid: `(c.1 + (x − y)·o, c.2 + (x + y − 1)·o)` with `x = (t / (nseg+1)) / nseg`,
+    `y = (t % (nseg+1)) / nseg`; the abscissa is **not** reduced modulo 8 by the code -/
+noncomputable def gridPt (c : ℝ × ℝ) (o : ℝ) (nseg t : ℕ) : ℝ × ℝ :=
+  (c.1 + (((t / (nseg + 1) : ℕ) : ℝ) / nseg - ((t % (nseg + 1) : ℕ) : ℝ) / nseg) * o,
+   c.2 + (((t / (nseg + 1) : ℕ) : ℝ) / nseg + ((t % (nseg + 1) : ℕ) : ℝ) / nseg - 1) * o)
+
+/-- **`grid_points_in_closed_cell`**: every plane point of the grid lies in the closed diamond -/
+theorem gridPt_in_diamond (c : ℝ × ℝ) (o : ℝ) (ho : 0 ≤ o) (nseg t : ℕ) (ht : t < (nseg + 1) * (nseg + 1)) :
+    InDiamond c.1 c.2 o (gridPt c o nseg t).1 (gridPt c o nseg t).2 := by
+  have hi : t / (nseg + 1) ≤ nseg := by
+    have := (Nat.div_lt_iff_lt_mul (by omega : 0 < nseg + 1)).mpr ht
+    omega
+  have hj : t % (nseg + 1) ≤ nseg := by
+    have := Nat.mod_lt t (by omega : 0 < nseg + 1)
+    omega
+  obtain ⟨x0, x1⟩ := lam_range nseg _ hi
+  obtain ⟨y0, y1⟩ := lam_range nseg _ hj
+  have h := abs_diamond_unit _ _ x0 x1 y0 y1
+  unfold InDiamond gridPt
+  simp only [add_sub_cancel_left]
+  rw [abs_mul, abs_mul, abs_of_nonneg ho, ← add_mul]
+  nlinarith
+
+/-- `grid` for a valid cell: all points succeed and are the un-projections of the plane points `gridPt` around the
+    centre of the cell -/
+theorem grid_plane (cfg : Cfg) (d hash b i j nseg : ℕ) (hh : hash < Layer.nHash d)
+    (hdec : Layer.decodeHash cfg d hash = some ⟨b, i, j⟩) (hb : b < 12) (hi : i < 2 ^ d) (hj : j < 2 ^ d) :
+    grid (α := ℝ) cfg d hash nseg =
+      some ((List.range ((nseg + 1) * (nseg + 1))).map fun t =>
+        unprojT (gridPt (norm8 (cellCx d b i j), cellCy d b i j) (1 / 2 ^ d) nseg t).1
+          (gridPt (norm8 (cellCx d b i j), cellCy d b i j) (1 / 2 ^ d) nseg t).2) := by
+  obtain ⟨c1, c2, c3, c4, c5⟩ := center_ranges d b i j hb hi hj
+  have ho : 0 < 1 / (2 : ℝ) ^ d := by positivity
+  unfold grid
+  rw [center_eq cfg d hash b i j hh hdec hb, Option.bind_some]
+  simp only [r_one, r_ofNat, nside_real]
+  apply mapM_some
+  intro t ht
+  have ht' := List.mem_range.mp ht
+  have hin := gridPt_in_diamond (norm8 (cellCx d b i j), cellCy d b i j) (1 / 2 ^ d) ho.le nseg t ht'
+  unfold InDiamond at hin
+  have hy : |(gridPt (norm8 (cellCx d b i j), cellCy d b i j) (1 / 2 ^ d) nseg t).2 - cellCy d b i j| ≤ 1 / 2 ^ d := by
+    have := abs_nonneg ((gridPt (norm8 (cellCx d b i j), cellCy d b i j) (1 / 2 ^ d) nseg t).1 - norm8 (cellCx d b i j))
+    simp only at hin
+    linarith
+  obtain ⟨y1, y2⟩ := abs_le.mp hy
+  change unproj (gridPt (norm8 (cellCx d b i j), cellCy d b i j) (1 / 2 ^ d) nseg t).1
+    (gridPt (norm8 (cellCx d b i j), cellCy d b i j) (1 / 2 ^ d) nseg t).2 = _
+  exact unproj_eq _ _ (by linarith) (by linarith)
+
+/-- the four corners of the grid are the four raw vertices: indices `0` (S), `nseg` (W), `nseg·(nseg+1)` (E),
+    `nseg·(nseg+1) + nseg` (N) -/
+theorem gridPt_corners (c : ℝ × ℝ) (o : ℝ) (nseg : ℕ) (hn : 0 < nseg) :
+    gridPt c o nseg 0 = rawVtx c o 0 ∧ gridPt c o nseg nseg = rawVtx c o 3 ∧
+    gridPt c o nseg (nseg * (nseg + 1)) = rawVtx c o 1 ∧ gridPt c o nseg (nseg * (nseg + 1) + nseg) = rawVtx c o 2 := by
+  have hne : (nseg : ℝ) ≠ 0 := by exact_mod_cast (Nat.pos_iff_ne_zero.mp hn)
+  have d1 : nseg / (nseg + 1) = 0 := Nat.div_eq_of_lt (by omega)
+  have m1 : nseg % (nseg + 1) = nseg := Nat.mod_eq_of_lt (by omega)
+  have d2 : nseg * (nseg + 1) / (nseg + 1) = nseg := Nat.mul_div_cancel _ (by omega)
+  have m2 : nseg * (nseg + 1) % (nseg + 1) = 0 := Nat.mul_mod_left _ _
+  have d3 : (nseg * (nseg + 1) + nseg) / (nseg + 1) = nseg := by
+    rw [Nat.add_comm, Nat.add_mul_div_right _ _ (by omega), d1, Nat.zero_add]
+  have m3 : (nseg * (nseg + 1) + nseg) % (nseg + 1) = nseg := by
+    rw [Nat.add_comm, Nat.add_mul_mod_self_right, m1]
+  have w0 : ∀ o : ℝ, offWe 0 o = 0 := fun o => by simp [offWe]
+  have w1 : ∀ o : ℝ, offWe 1 o = o := fun o => by simp [offWe]
+  have w2 : ∀ o : ℝ, offWe 2 o = 0 := fun o => by simp [offWe]
+  have w3 : ∀ o : ℝ, offWe 3 o = -o := fun o => by simp [offWe]
+  have s0 : ∀ o : ℝ, offSn 0 o = -o := fun o => by simp [offSn]
+  have s1 : ∀ o : ℝ, offSn 1 o = 0 := fun o => by simp [offSn]
+  have s2 : ∀ o : ℝ, offSn 2 o = o := fun o => by simp [offSn]
+  have s3 : ∀ o : ℝ, offSn 3 o = 0 := fun o => by simp [offSn]
+  unfold gridPt rawVtx
+  refine ⟨?_, ?_, ?_, ?_⟩
+  · simp only [Nat.zero_div, Nat.zero_mod, w0, s0]; ext <;> simp
+  · simp only [d1, m1, w3, s3, div_self hne]; ext <;> simp
+  · simp only [d2, m2, w1, s1, div_self hne]; ext <;> simp
+  · simp only [d3, m3, w2, s2, div_self hne]; ext <;> simp
+
 end Hpx.CellReal
